@@ -153,7 +153,7 @@ def nontrivial(desc_nodes):
 
 
 def gen_random(rng):
-    size = rng.choice([3, 5, 8, 15, 30, 60])
+    size = rng.choice([3, 5, 8, 15, 30, 60] + ([130, 200] if rng.random() < 0.1 else []))
     kinds = []
     i = 0
     while i < size:
